@@ -16,6 +16,9 @@
   `cluster-prims-relabelled` correspondence stream.
 -/
 import RbModel.Lemmas.ClusterRelabel
+import RbModel.Lemmas.Hangul
+import RbModel.Props.C17
+import RbModel.Lemmas.MorxRelabel
 
 namespace RbModel.Buf
 
@@ -191,3 +194,109 @@ example : InPlace exRelabel := ⟨rfl, rfl, by decide⟩
 example : WF exRelabel := ⟨by decide, by decide, by decide, by decide⟩
 
 end RbModel.Buf
+
+/-! ## Shaper-level pieces that compare clusters: Hangul preprocessing, morx feature ranges
+
+  The primitives above are what every shaper goes through; two pieces of shaper code look at clusters or at the
+  cluster level themselves and are modelled (Hangul.lean, Morx.lean).  For them the property is stated directly. -/
+
+namespace RbModel.Hangul
+
+/-- **Hangul preprocessing is blind to cluster values and to the cluster level.**  Composition, decomposition, jamo
+    tagging, tone-mark reordering and dotted-circle insertion (`preprocess_text_hangul`) produce the same code points with
+    the same jamo features in the same order for any two configurations that agree on the font (`has`, `zeroW`) and on
+    the dotted-circle flag — whatever their cluster levels — and any two texts that agree on the code points — whatever
+    their cluster values (no monotonicity needed).  Both runs terminate without a panic. -/
+theorem C15_hangul_levels_and_labels (c c' : Cfg) (text text' : List G)
+    (hhas : c'.has = c.has) (hz : c'.zeroW = c.zeroW) (hd : c'.noDotted = c.noDotted)
+    (hk : keys text' = keys text) :
+    ∃ r r', preprocess c text = some r ∧ preprocess c' text' = some r' ∧ keys r' = keys r := by
+  obtain ⟨r, h1, k1⟩ := preprocess_keys c text
+  obtain ⟨r', h2, k2⟩ := preprocess_keys c' text'
+  refine ⟨r, r', h1, h2, ?_⟩
+  have hs : sup c' = sup c := by simp [sup, hhas, hz, hd]
+  rw [k1, k2, hs, hk]
+
+/-- non-vacuity: level 0 against level 2, clusters 0,1,2 against 10,20,30 (an `<L,V>` of old jamo and a tone mark). -/
+example : ∃ (c c' : Cfg) (text text' : List G), c.level = 0 ∧ c'.level = 2 ∧ c'.has = c.has ∧ c'.zeroW = c.zeroW ∧
+    c'.noDotted = c.noDotted ∧ keys text' = keys text ∧ text'.map (·.cl) ≠ text.map (·.cl) :=
+  ⟨⟨fun _ => true, fun _ => false, false, 0⟩, ⟨fun _ => true, fun _ => false, false, 2⟩,
+   [⟨0x1113, 0, 0⟩, ⟨0x1161, 1, 0⟩, ⟨0x302E, 2, 0⟩], [⟨0x1113, 10, 0⟩, ⟨0x1161, 20, 0⟩, ⟨0x302E, 30, 0⟩],
+   rfl, rfl, rfl, rfl, rfl, by decide, by decide⟩
+
+end RbModel.Hangul
+
+namespace RbModel.Morx
+
+-- `relabG f g` / `relabel f b` (Lemmas/MorxRelabel.lean): the cluster of one record / of every record of the buffer (dead
+-- slots included) mapped by `f`.
+
+/-- **The compiled feature ranges see only the order of cluster values.**  `rf` are the ranges compiled for a chain from
+    the user features, `rf'` those compiled from the relabelled features: same flags, and a cluster lies left of /
+    inside / right of range `k` iff its image does for range `k` of `rf'` (for `[s, e)` ↦ `[f s, f e)` this is strict
+    monotonicity of `f`; note that `cluster_last = e - 1` is NOT mapped to `f (e - 1)` but to `f e - 1`).  Then "the
+    range of this cluster switches the subtable on" has the same answer for `c` and for `f c`. -/
+theorem C15_enabledAt_relabel (f : Nat → Nat) (rf rf' : Array Range) (sf hi hi' c : Nat)
+    (ht : Tiles rf hi) (ht' : Tiles rf' hi') (hc : c ≤ hi) (hsz : rf'.size = rf.size)
+    (hrel : ∀ (k : Nat) (r r' : Range), rf[k]? = some r → rf'[k]? = some r' →
+      r'.flags = r.flags ∧ (r.first ≤ c ↔ r'.first ≤ f c) ∧ (c ≤ r.last ↔ f c ≤ r'.last)) :
+    enabledAt rf' sf (f c) = enabledAt rf sf c := by
+  obtain ⟨k, _, hk, hin⟩ := findRange_spec ht c hc 0 ht.nonempty
+  have h1 : rf[k]? = some rf[k] := by simp [hk]
+  have hk' : k < rf'.size := by omega
+  have h2 : rf'[k]? = some rf'[k] := by simp [hk']
+  obtain ⟨hfl, hfi, hla⟩ := hrel k rf[k] rf'[k] h1 h2
+  have hc1 := hin rf[k] h1
+  rw [enabledAt_eq ht sf c k rf[k] h1 hc1, enabledAt_eq ht' sf (f c) k rf'[k] h2 ⟨hfi.mp hc1.1, hla.mp hc1.2⟩, hfl]
+
+/-- non-vacuity: the ranges of a feature on `[2, 5)` and of the same feature on `[4, 10)` under `c ↦ 2 c`. -/
+example : ∀ c, c ≤ 1000 → ∀ (k : Nat) (r r' : Range),
+    (#[⟨0, 0, 1⟩, ⟨2, 2, 4⟩, ⟨0, 5, 0xFFFFFFFF⟩] : Array Range)[k]? = some r →
+    (#[⟨0, 0, 3⟩, ⟨2, 4, 9⟩, ⟨0, 10, 0xFFFFFFFF⟩] : Array Range)[k]? = some r' →
+    r'.flags = r.flags ∧ (r.first ≤ c ↔ r'.first ≤ 2 * c) ∧ (c ≤ r.last ↔ 2 * c ≤ r'.last) := by
+  intro c hc k r r' h h'
+  match k, h, h' with
+  | 0, h, h' => simp at h h'; subst h; subst h'; simp; omega
+  | 1, h, h' => simp at h h'; subst h; subst h'; simp; omega
+  | 2, h, h' => simp at h h'; subst h; subst h'; simp; omega
+  | k + 3, h, h' => simp at h
+
+/-- **C15 for the non-contextual subtable with ranged features.**  With more than one compiled range the subtable looks
+    every glyph's range up by its cluster (the block seed-tested as "Keep in sync" with `drive`).  If the two range
+    vectors answer alike on the clusters of the buffer and their images (`C15_enabledAt_relabel`), the run on the
+    relabelled buffer is the relabelled run: same glyph ids, clusters mapped by `f`, nothing else changed, no panic. -/
+theorem C15_relabel_noncontextual (f : Nat → Nat) (lk : Lookup) (rf rf' : Array Range) (sf hi hi' : Nat) (b : Buf)
+    (hb : b.len ≤ b.info.size) (ht : Tiles rf hi) (ht' : Tiles rf' hi') (h1 : 1 < rf.size) (h1' : 1 < rf'.size)
+    (hcl : ∀ (i : Nat) (g : G), i < b.len → b.info[i]? = some g →
+      g.cl ≤ hi ∧ f g.cl ≤ hi' ∧ enabledAt rf' sf (f g.cl) = enabledAt rf sf g.cl) :
+    ∃ info', nonContextual lk rf sf b = .ok { b with info := info' } ∧
+      nonContextual lk rf' sf (relabel f b) = .ok (relabel f { b with info := info' }) := by
+  obtain ⟨info1, e1, s1, k1⟩ := C17_noncontextual lk rf sf hi b hb
+    (Or.inr ⟨ht, fun i g hi hg => (hcl i g hi hg).1⟩)
+  have hb' : (relabel f b).len ≤ (relabel f b).info.size := by simpa [relabel] using hb
+  have hcl' : ∀ (i : Nat) (g : G), i < (relabel f b).len → (relabel f b).info[i]? = some g → g.cl ≤ hi' := by
+    intro i g hi hg
+    simp only [relabel, Array.getElem?_map, Option.map_eq_some_iff] at hg
+    obtain ⟨g0, hg0, rfl⟩ := hg
+    exact (hcl i g0 hi hg0).2.1
+  obtain ⟨info2, e2, s2, k2⟩ := C17_noncontextual lk rf' sf hi' (relabel f b) hb' (Or.inr ⟨ht', hcl'⟩)
+  refine ⟨info1, e1, ?_⟩
+  rw [e2]
+  have : info2 = info1.map (relabG f) := by
+    apply Array.ext_getElem?
+    intro i
+    rw [k2, Array.getElem?_map, k1]
+    have hn : ¬ rf.size ≤ 1 := by omega
+    have hn' : ¬ rf'.size ≤ 1 := by omega
+    simp only [relabel, Array.getElem?_map, hn, hn', decide_false, Bool.false_or]
+    by_cases hi : i < b.len
+    · simp only [hi, if_true]
+      cases hg : b.info[i]? with
+      | none => simp
+      | some g =>
+        simp only [Option.map_some]
+        rw [show (relabG f g).cl = f g.cl from rfl, (hcl i g hi hg).2.2, ncMap_relabG]
+    · simp [hi]
+  simp [relabel, this]
+
+end RbModel.Morx
